@@ -117,9 +117,14 @@ class Req:
         return self
 
     def describe(self):
+        def safe(fn, o):
+            try:
+                return fn(o)[:300]
+            except RecursionError:
+                return "<cyclic expression>"
         return {"group": self.group, "request": self.label,
-                "operands": [str(o) for o in self.operands],
-                "operand_reprs": [repr(o)[:300] for o in self.operands]}
+                "operands": [safe(str, o) for o in self.operands],
+                "operand_reprs": [safe(repr, o) for o in self.operands]}
 
 
 # ----------------------------------------------------------------------------------------------
